@@ -30,7 +30,17 @@ func (it *Item) Expensive() bool {
 	return it.V > 0
 }
 
+// Audit is EMBEDDED in Fact: its fields are promoted (F.Hits).
+type Audit struct {
+	Hits int64
+	Tag  string
+}
+
+// Cents is a defined numeric type: same kind as int64, different type.
+type Cents int64
+
 type Fact struct {
+	Audit
 	I     int64
 	J     int64
 	K     int64
@@ -63,6 +73,8 @@ type Fact struct {
 	Subs  []*Sub
 	SubM  map[string]*Sub
 	NilM  map[string]int64       // stays nil: writing an entry fails inside reflect
+	Cs    []Cents                // elements of a defined numeric type
+	Grid  [][]*Sub               // two nested selectors
 	Flags map[string]interface{} // an interface-typed bool behind a map entry
 	PB    *bool                  // a pointer-typed bool
 	items []*Item
@@ -195,6 +207,9 @@ func newFact(tag string, shape int) *Fact {
 	f.Flags = map[string]interface{}{"vip": verif.Bool(tag + ".Flags.vip")}
 	pb := verif.Bool(tag + ".PB")
 	f.PB = &pb
+	f.Hits, f.Tag = smallInt(tag+".Hits"), "t"
+	f.Cs = []Cents{Cents(smallInt(tag + ".Cs0")), Cents(smallInt(tag + ".Cs1"))}
+	f.Grid = [][]*Sub{{{V: smallInt(tag + ".G00")}, {V: smallInt(tag + ".G01")}}, {{V: smallInt(tag + ".G10")}, {V: smallInt(tag + ".G11")}}}
 	f.PanicAt = 7
 	return f
 }
@@ -214,6 +229,7 @@ type factSnap struct {
 	n    int64
 	mc   int64
 	hasC bool
+	cs   []Cents
 }
 
 func snapFact(f *Fact, n int64) factSnap {
@@ -230,6 +246,7 @@ func snapFact(f *Fact, n int64) factSnap {
 	s.ma, s.mb, s.mlen = f.M["a"], f.M["b"], len(f.M)
 	s.mc, s.hasC = f.M["c"]
 	s.pi = *f.PI
+	s.cs = append([]Cents{}, f.Cs...)
 	return s
 }
 
@@ -255,6 +272,8 @@ func copyFact(f *Fact) *Fact {
 	g.Subs = []*Sub{{V: f.Subs[0].V}, {V: f.Subs[1].V}}
 	g.SubM = map[string]*Sub{"no": {V: f.SubM["no"].V}, "go": {V: f.SubM["go"].V}}
 	g.Log = nil
+	g.Cs = append([]Cents{}, f.Cs...)
+	g.Grid = [][]*Sub{{{V: f.Grid[0][0].V}, {V: f.Grid[0][1].V}}, {{V: f.Grid[1][0].V}, {V: f.Grid[1][1].V}}}
 	g.Flags = map[string]interface{}{"vip": f.Flags["vip"]}
 	pb := *f.PB
 	g.PB = &pb
